@@ -8,7 +8,6 @@ use crate::pipeline::*;
 use num_bigint::BigUint;
 use proptest::prelude::*;
 use serde::{Deserialize, Serialize};
-use std::io::Cursor;
 use std::sync::OnceLock;
 
 pub struct C13;
@@ -154,7 +153,10 @@ fn build_input(g: &Golden, target: Target, m: &Mutation, root: &BigUint) -> (Vec
 fn check_recover(pool: &Pool, a: &[u8], b: &[u8], o: &mut Outcome) {
     for (x, y) in [(a, b), (b, a)] {
         let mut out = vec![];
-        match guarded(|| pool.rln.recover_id_secret(Cursor::new(x.to_vec()), Cursor::new(y.to_vec()), &mut out).map_err(|e| e.to_string())) {
+        let mut sink = crate::gens::Sink::new();
+        let r = guarded(|| pool.rln.recover_id_secret(crate::gens::rd(x), crate::gens::rd(y), &mut sink).map_err(|e| e.to_string()));
+        out = sink.data;
+        match r {
             Ok(Ok(())) => {
                 if !(out.is_empty() || (out.len() == 32 && &BigUint::from_bytes_le(&out) < p())) {
                     vfail!(o, "recover_id_secret wrote {} bytes that are neither empty nor one canonical field element", out.len());
@@ -222,6 +224,8 @@ impl Property for C13 {
         };
         let g = &pool.msgs[c.golden as usize % pool.msgs.len()];
         let (input, roots) = build_input(g, c.target, &c.mutation, &pool.root);
+        crate::gens::set_io_style((case_hash(c) % 4) as u8);
+        o.label(format!("io-style/{}", crate::gens::io_style()));
         o.label(format!("target/{:?}", c.target));
         let mname = format!("{:?}", c.mutation);
         let mname = mname.split(|ch: char| !ch.is_alphanumeric()).next().unwrap_or("").to_string();
